@@ -1044,6 +1044,15 @@ def fill_command(s, ed, rnd, tmp):
             # table shapes in turn: a sufficient subset; every one of the 21 components listed (zeros written out) with symmetry-related entries that disagree in the
             # second decimal (the fill reconciles them and omits what vanishes); a sufficient subset plus redundant columns
             shape = (systems.index(system) + r) % 3
+            whole = False
+            if shape == 0 and system != "triclinic":
+                # a table of WHOLE numbers printed without decimal point (kbar tables): pandas types such columns int64 in the command's own parse
+                den = 1
+                for v_ in laue.invariant_basis(system):
+                    for x_ in v_:
+                        den = int(sp.ilcm(den, sp.Rational(x_).q))
+                tens = numpy.rint((den * nrnd.randint(5, 1500, size=(nv, len(basis))).astype(float)) @ basis)
+                whole = True
             if shape == 1:
                 cols = [int(k) for k in nrnd.permutation(21)]
             elif shape == 2:
@@ -1057,7 +1066,7 @@ def fill_command(s, ed, rnd, tmp):
             lines = ["V " + " ".join(names[k].upper() if nrnd.rand() < 0.3 else names[k] for k in cols)]
             vols = numpy.linspace(600, 400, nv)
             for i in range(nv):
-                lines.append("%.5f " % vols[i] + " ".join("%.6f" % tens[i, k] for k in cols))
+                lines.append("%.5f " % vols[i] + " ".join(("%d" % tens[i, k]) if whole else ("%.6f" % tens[i, k]) for k in cols))
             rest = ["lattice_a lattice_b lattice_c"] + ["%.4f %.4f %.4f" % (8 - 0.1 * i, 9 - 0.2 * i, 10 - 0.15 * i) for i in range(nv)] if nrnd.rand() < 0.7 else []
             text = "\n".join(header + lines + rest) + "\n"
             p = os.path.join(tmp, "fill_in.dat")
